@@ -503,7 +503,9 @@ def run_case(case, stats):
         try:
             return check_text(text, case['path'], prng.rng('c04-file', case.get('seed', 0), os.path.basename(case['path'])),
                               stats, max_reads=24 if case.get('tier') != 'thorough' else 40,
-                              ops=('names_at',) if case.get('tier') != 'thorough' else ('names_at', 'declarations', 'evaluate'),
+                              # quick: the cheap operation on every file, all three on supp's own sources
+                              ops=('names_at',) if (case.get('tier') != 'thorough' and os.sep + 'supp' + os.sep not in case['path'])
+                              else ('names_at', 'declarations', 'evaluate'),
                               orders=case.get('orders'))
         finally:
             idhash.uninstall()
